@@ -520,7 +520,7 @@ def pair_near(r, p):
 def cert_items(ctx):
     r = ctx.rng
     items = []
-    scale = ctx.n(1, 10)
+    scale = ctx.n(1, 6)
     # euler family: every selector and epoch
     for b in (False, True):
         for sel in range(1, 7):
@@ -694,6 +694,9 @@ def run(ctx, replay=None):
         flags = dict(consts["lat_atan2"], xyz2eq_rad_wrap=consts["xyz2eq_rad_wrap_2pi"])
         for k, v in sorted(flags.items()):
             ctx.count("shape:%s=%s" % (k, v))
+        for k, v in sorted(consts["formulas"].items()):
+            ctx.obligation("formulas of %s translated from the source (x, y, z as real-number terms)" % k, v is not None,
+                           "" if v is not None else "the code does not form x, y, z (as-found shape): C09_source_formula_%s cannot hold" % k)
     except c09_consts.TranslateError as e:
         gen_ok = False
         ctx.obligation("Gen.v regenerated from esutil/coords.py", False, str(e))
